@@ -5,6 +5,8 @@ import PyamgV.Proofs.C19Scale
 import PyamgV.Proofs.C19Diag
 import PyamgV.Proofs.C19Filter
 import PyamgV.Proofs.C19Pinv
+import PyamgV.Proofs.C19Bsr
+import PyamgV.Proofs.C19Trunc
 
 /-! # C19 — matrix utilities compute their stated algebraic result
 
@@ -34,6 +36,11 @@ restate scale_minor_idx := PyamgV.C19.scaleMinor_idx
 restate scale_major_lengths := PyamgV.C19.scaleMajor_lengths
 restate scale_minor_lengths := PyamgV.C19.scaleMinor_lengths
 
+/-- BSR storage: expanding to scalar rows commutes with SciPy's block loops, so the BSR branches are
+`diag(v) A` / `A diag(v)` by the two theorems above -/
+restate bsr_scale_rows_expand := PyamgV.C19.bsrExpand_scaleRows
+restate bsr_scale_cols_expand := PyamgV.C19.bsrExpand_scaleCols
+
 /-! ### diagonal extraction, inverse with the zero rule, symmetric rescaling -/
 /-- `get_diagonal(inv=True)`: `Dinv_i D_i = 1` where `D_i != 0`, `Dinv_i = 0` elsewhere -/
 restate diag_inverse_zero_rule := PyamgV.C19.invZero_mul
@@ -58,6 +65,12 @@ restate row_max_attained := PyamgV.C19.rowMaxSq_attained
 restate filter_diag_rule := PyamgV.C19.filterRowDiag_plain
 /-- `lump=True` preserves every row sum -/
 restate filter_lump_row_sum := PyamgV.C19.filterRowDiag_lump_sum
+
+/-! ### row truncation -/
+/-- per-instance certificate => specification: when `truncCheck` holds for a row (decided in the
+driver for every row of every compared case), the model output is a rearrangement of the stored
+entries with all but `k` of them zeroed, no zeroed one larger in modulus than a kept one -/
+restate truncate_row_spec := PyamgV.C19.truncateRow_spec
 
 /-! ### block pseudo-inverse and the filtering projection -/
 /-- the four Penrose equations have at most one solution ... -/
@@ -89,6 +102,11 @@ open PyamgV.C19 in
 example : filterRowDiag (α := Rat) nsqQ (1/2) true 0 [(1, 1), (0, 4), (2, 3)] = [(1, 0), (0, 5), (2, 3)] := by decide +kernel
 open PyamgV.C19 in
 example : Mat.pinv (α := Rat) id #[#[1, 2], #[2, 4]] = some #[#[1/25, 2/25], #[2/25, 4/25]] := by decide +kernel
+open PyamgV.C19 in
+example : truncCheck (α := Rat) nsqQ 2 [(0, 1), (1, -3), (2, 2), (3, 1/2)] = true
+    ∧ truncateRow (α := Rat) nsqQ 2 [(0, 1), (1, -3), (2, 2), (3, 1/2)] = [(3, 0), (0, 0), (2, 2), (1, -3)] := by decide +kernel
+open PyamgV.C19 in
+example : bsrExpand (α := Rat) 2 1 (bsrScaleRows 2 1 #[2, 3] [[(0, #[1, 5])]]) = [[(0, 2)], [(0, 15)]] := by decide +kernel
 open PyamgV.C19 in
 example : symRescale (α := Rat) sqrtAbsQ? 2 [[(0, 4), (1, 2)], [(1, -16), (0, 8)]]
     = some ([2, 4], [1/2, 1/4], [[(0, 1), (1, 1/4)], [(1, -1), (0, 1)]]) := by decide +kernel
